@@ -18,7 +18,7 @@
 #include <stdlib.h>
 
 enum { F_LEVEL_NONE, F_LEVEL_BYTES, F_LEVEL_STACKS, F_REALLOC_MOVED, F_REALLOC_SAME_PTR, F_REALLOC_TO_ZERO, F_REALLOC_FROM_NULL, F_CALLOC, F_DUMP_WITH_LIVE,
-       F_CROSS_THREAD_RELEASE, F_READING_DURING_ACTIVITY, F_WRAPPED_HAS_REALLOC, F_WRAPPED_NO_REALLOC, F_ADDRESS_REUSE, F_FOREIGN_RELEASE, F_FOREIGN_REALLOC, F_MANY_STACKS };
+       F_CROSS_THREAD_RELEASE, F_READING_DURING_ACTIVITY, F_WRAPPED_HAS_REALLOC, F_WRAPPED_NO_REALLOC, F_ADDRESS_REUSE, F_FOREIGN_RELEASE, F_FOREIGN_REALLOC, F_MANY_STACKS, F_BIG_CALLOC };
 
 static inline uint8_t pat(uint64_t id, size_t off) {
     return (uint8_t)(id * 131 + off * 11 + (id >> 9) + 5);
@@ -779,6 +779,103 @@ static void thr_case(void) {
                perturb_profile_name(prof_idx), (unsigned long long)handed, nev);
 }
 
+/* ------------------------------------------------------------------ zero-initialised tables of 4 GiB and more through the tracer
+ * The wrapped allocator hands out address space (mmap, untouched = zero) and has its own calloc entry point, so nothing is
+ * written. The tracer's totals must be the full products num*size while the blocks are live; count, dump and release as ever. */
+#include <sys/mman.h>
+#define VA_SLOTS 8
+static struct {
+    void *p;
+    size_t len;
+} s_va[VA_SLOTS];
+static void *va_acquire(struct aws_allocator *a, size_t size) {
+    (void)a;
+    for (int i = 0; i < VA_SLOTS; ++i) {
+        if (!s_va[i].p) {
+            void *p = mmap(NULL, size, PROT_READ | PROT_WRITE, MAP_PRIVATE | MAP_ANONYMOUS | MAP_NORESERVE, -1, 0);
+            if (p == MAP_FAILED) {
+                return NULL;
+            }
+            s_va[i].p = p;
+            s_va[i].len = size;
+            return p;
+        }
+    }
+    return NULL;
+}
+static void va_release(struct aws_allocator *a, void *p) {
+    (void)a;
+    for (int i = 0; p && i < VA_SLOTS; ++i) {
+        if (s_va[i].p == p) {
+            munmap(p, s_va[i].len);
+            s_va[i].p = NULL;
+            return;
+        }
+    }
+}
+static void *va_calloc(struct aws_allocator *a, size_t num, size_t size) {
+    return va_acquire(a, num * size);
+}
+static struct aws_allocator s_va_alloc = {.mem_acquire = va_acquire, .mem_release = va_release, .mem_realloc = NULL, .mem_calloc = va_calloc, .impl = NULL};
+
+static void big_calloc_case(void) {
+    struct mon_rng *r = &mon_case_rng;
+    /* can this machine reserve the address space at all? (otherwise the library's allocation check would abort) */
+    void *probe = mmap(NULL, (size_t)6 << 30, PROT_READ | PROT_WRITE, MAP_PRIVATE | MAP_ANONYMOUS | MAP_NORESERVE, -1, 0);
+    if (probe == MAP_FAILED) {
+        mon_count("big_calloc_case_skipped_no_address_space", 1);
+        return;
+    }
+    munmap(probe, (size_t)6 << 30);
+    int level = mon_chance(r, 1, 2) ? AWS_MEMTRACE_BYTES : AWS_MEMTRACE_STACKS;
+    mon_fp(0xCA110C + (uint64_t)level);
+    struct aws_allocator *tr = aws_mem_tracer_new(&s_va_alloc, NULL, (enum aws_mem_trace_level)level, 8);
+    static const size_t NUM[4] = {1, 65537, ((size_t)1 << 32) + 3, 48};
+    static const size_t SZ[4] = {((size_t)1 << 32) + 4096, 65536, 1, (size_t)100 << 20};
+    uint8_t *blk[4];
+    size_t want = 0;
+    uint64_t v0 = mon_violations();
+    for (int i = 0; i < 4 && mon_violations() == v0; ++i) {
+        blk[i] = aws_mem_calloc(tr, NUM[i], SZ[i]);
+        want += NUM[i] * SZ[i];
+        if (blk[i][0] || blk[i][NUM[i] * SZ[i] - 1]) {
+            mon_violation("C17:calloc-not-zero", "calloc(%zu, %zu) through the tracer returned memory that is not zero", NUM[i], SZ[i]);
+        }
+        size_t bytes = aws_mem_tracer_bytes(tr), count = aws_mem_tracer_count(tr);
+        if (bytes != want || count != (size_t)i + 1) {
+            mon_violation("C17:bytes", "level %d, after calloc(%zu, %zu) through the tracer: aws_mem_tracer_bytes = %zu, sum of live requested sizes = %zu; count %zu, live %d", level,
+                          NUM[i], SZ[i], bytes, want, count, i + 1);
+        }
+    }
+    if (mon_violations() == v0) {
+        aws_mem_tracer_dump(tr);
+        if (aws_mem_tracer_bytes(tr) != want) {
+            mon_violation("C17:dump-changed-accounting", "dump with %zu bytes live changed the total to %zu", want, aws_mem_tracer_bytes(tr));
+        }
+        for (int i = 0; i < 4; ++i) {
+            aws_mem_release(tr, blk[i]);
+            want -= NUM[i] * SZ[i];
+            if (aws_mem_tracer_bytes(tr) != want || aws_mem_tracer_count(tr) != (size_t)(3 - i)) {
+                mon_violation("C17:bytes", "level %d, after releasing the calloc(%zu, %zu) block: aws_mem_tracer_bytes = %zu, expected %zu; count %zu, expected %d", level, NUM[i],
+                              SZ[i], aws_mem_tracer_bytes(tr), want, aws_mem_tracer_count(tr), 3 - i);
+                break;
+            }
+        }
+    }
+    aws_mem_tracer_destroy(tr);
+    for (int i = 0; i < VA_SLOTS; ++i) {
+        if (s_va[i].p) {
+            munmap(s_va[i].p, s_va[i].len);
+            s_va[i].p = NULL;
+        }
+    }
+    mon_flag(F_BIG_CALLOC);
+    mon_flag(level == AWS_MEMTRACE_BYTES ? F_LEVEL_BYTES : F_LEVEL_STACKS);
+    mon_flag(F_CALLOC);
+    mon_flag(F_DUMP_WITH_LIVE);
+    mon_count("callocs_of_4GiB_or_more_through_the_tracer", 4);
+}
+
 int main(int argc, char **argv) {
     mon_init(argc, argv, "C17");
     aws_common_library_init(aws_default_allocator());
@@ -787,7 +884,7 @@ int main(int argc, char **argv) {
                                   "dump_with_live_allocations", "block_released_by_another_thread", "reading_with_activity_in_flight", "wrapped_allocator_has_realloc",
                                   "wrapped_allocator_without_realloc", "wrapped_allocator_reuses_addresses_immediately",
                                   "untracked_block_released_through_tracer", "untracked_block_resized_through_tracer",
-                                  "more_than_4000_distinct_call_stacks"};
+                                  "more_than_4000_distinct_call_stacks", "calloc_of_4GiB_or_more_through_the_tracer"};
     for (int i = 0; i < (int)(sizeof(names) / sizeof(names[0])); ++i) {
         mon_flag_name(i, names[i]);
     }
@@ -805,6 +902,8 @@ int main(int argc, char **argv) {
         } else {
             if (c % 64 == 63) {
                 many_stacks_case();
+            } else if (c % 512 == 100) {
+                big_calloc_case();
             } else {
                 seq_case();
             }
